@@ -45,7 +45,7 @@ def run(ctx):
     if q:
         runs += [("bigrand", "process", 0, 12, 300, 4, 60000), ("bigrand", "process", 4, 8, 300, 4, 120000)]
     else:
-        runs += [("bigrand", "process", lim, names, 600, 12, mx) for (lim, names, mx) in ((0, 12, 60000), (4, 8, 120000), (8, 12, 200000), (0, 6, 30000), (2, 16, 90000))]
+        runs += [("bigrand", "process", lim, names, 300, 10, mx) for (lim, names, mx) in ((0, 12, 60000), (4, 8, 120000), (8, 12, 200000), (0, 6, 30000), (2, 16, 90000))]
     n = 0
     for spec in runs:
         n += 1
